@@ -754,6 +754,12 @@ func runScenario(sc scen) []finding {
 			}
 		}
 		return holdScenario(sc, time.Duration(last/2+4)*sc.L)
+	case "S13":
+		o := locktap.RelockBehindSlowDeleteAnswer(sc.L)
+		if o.Sig != "" {
+			return []finding{{sig: "lease/contender-acquired-while-held/relock-behind-a-slow-delete-answer", what: o.What, timeBound: true, w: sc}}
+		}
+		return nil
 	case "S12":
 		o := locktap.HandOffVsInflightRenewal(sc.L, sc.K)
 		if o.Sig != "" {
@@ -986,7 +992,7 @@ func slowList() []scen {
 	// S10: two locks taken together in one process; the storage of the other lock answers its renewal only after
 	// 0.75 leases, the watched lock's storage at once (a far timer pending, the timer worker busy at the due time)
 	for _, L := range []time.Duration{300 * time.Millisecond, 400 * time.Millisecond} {
-		list = append(list, scen{Kind: "S10", L: L})
+		list = append(list, scen{Kind: "S10", L: L}, scen{Kind: "S13", L: L})
 	}
 	return list
 }
